@@ -83,7 +83,7 @@ class C14(Check):
             mid = rng.pick(['savegames', 'dbs', 'x'])
             segs = [head, mid, 'm' * max(1, total - (1 + len(head) + 1 + len(mid) + 1) - 4) + '.sav']
         return {'segs': segs, 'keylen': rng.pick([0x10, 0x120, 0x140, 0x10, 0x11, 0x100]), 'backend': rng.pick(['mem', 'mem', 'os']),
-                'via': rng.pick(['root', 'opendir', 'opendir2']), 'style': rng.pick(['plain', 'slash', 'dot', 'dotdot', 'dslash', 'upper']),
+                'via': rng.pick(['root', 'opendir', 'opendir2', 'chain']), 'style': rng.pick(['plain', 'slash', 'dot', 'dotdot', 'dslash', 'upper']),
                 'api': rng.pick(['open', 'openbin']), 'reread': rng.pick(['canonical', 'same-spelling']),
                 'seed': rng.getrandbits(32), 'dev': 0}
 
@@ -198,6 +198,12 @@ class C14(Check):
                         view, vpath = sdfs, spell
                     elif case['via'] == 'opendir':
                         view, vpath = sdfs.opendir(segs[0]), '/'.join(segs[1:])
+                    elif case['via'] == 'chain':
+                        # a view of a view of a view: one opendir() per directory level
+                        view = sdfs
+                        for seg in segs[:-1]:
+                            view = view.opendir(seg)
+                        vpath = fname
                     else:
                         view, vpath = sdfs.opendir(dirp), fname
                     content = rng.rbytes(rng.pick([0, 1, 15, 16, 17, 40, 100]))
